@@ -24,7 +24,7 @@ CHECKS = {
         "{mode, norm, vmin, vmax, operation, extra keyword} at {neither, layer, call, both with different values} - all 4096 "
         "combinations (thorough) or everything within 2 deviations (quick) - and 64 combinations for histogram1d {bins, weights, "
         "extra}; the effective value must be the layer's if set, else the call's.",
-        "Norms are given as strings. Rendering uses the Agg backend; only returned data and argument objects are observed.",
+        "Norms are given as strings. Rendering uses the Agg backend; only returned data and argument objects are observed. Added: two layers with independent options, default-resolution thick maps, references computed in one-task processes.",
         "DESIGN.md §3 C19",
     ),
     "C03": (
@@ -41,7 +41,7 @@ CHECKS = {
         "cells among 2-3 virtual threads: off-face harnesses are closed by the conflict certificate, on-face ones are enumerated with "
         "0-2 preemptions and every final image must lie in the per-pixel allowed set.",
         "Trusted: M3 oracle, get_direction's basis (checked by C18). Schedule exploration is on source-derived bodies under sequential "
-        "consistency, not on numba's compiled threads.",
+        "consistency, not on numba's compiled threads. Added: call sequences in one process (same window again, other unit, other layer), 'top'/'side' views with a later layer from another Datagroup.",
         "DESIGN.md §3 C03",
     ),
     "C11": (
@@ -54,7 +54,7 @@ CHECKS = {
         "force, reducing the column with the same numpy function, multiplying sum/nansum by the depth step and checking the unit "
         "dimension (layer x length) through M2; mask <=> NaN reduction. Both integers next to dz/pixel are accepted as default depth "
         "resolution. Schedules: slab harnesses with 2-3 depth samples on evaluate_on_grid as in C03.",
-        "Columns containing a sample within 1e-9 box of a face are skipped. dz below one pixel is outside the statement.",
+        "Columns containing a sample within 1e-9 box of a face are skipped. dz below one pixel is outside the statement. Added: sequences of thick maps in one process mixing the default resolution, partial dictionaries and integers.",
         "DESIGN.md §3 C11",
     ),
     "C05": (
@@ -70,7 +70,7 @@ CHECKS = {
         "positions around each limit and bin edge, NaN, +-inf, for resolutions 1-4 and two ranges; the public histogram2d on 6 data sets "
         "x explicit/Quantity/tight/half/automatic limits x lin/log axes x resolutions x 0-2 layers with sum/mean at layer and call level.",
         "The schedule exploration runs source-derived bodies on Python threads under sequential consistency at element granularity; it "
-        "does not drive numba's compiled threads. The 16-thread free run of the compiled kernel (thorough) is corroboration only.",
+        "does not drive numba's compiled threads. The 16-thread free run of the compiled kernel (thorough) is corroboration only. Added: E3 derives iterations from the kernel's real loop and answers numba thread queries virtually; a deterministic (size x thread count) ladder on the compiled kernel with integer-valued data; points exactly on interior edges with dyadic limits.",
         "DESIGN.md §2.4, §3 C05",
     ),
     "C16": (
@@ -83,7 +83,7 @@ CHECKS = {
         "lattices so that boundary membership (strict for spheres, inclusive for boxes) is exact; plus a loader-produced dataset. "
         "Checked: exactly the expected rows per group, every member row-aligned with units kept, meta carried over, empty groups "
         "omitted, groups without positions ignored, input dataset bit-identical afterwards.",
-        "3-D positions; dyadic coordinates.",
+        "3-D positions; dyadic coordinates. Added: a group with own positions and the mesh's row count; integer Pythagorean offsets exactly on the sphere surface.",
         "DESIGN.md §3 C16",
     ),
     "C18": (
@@ -96,7 +96,7 @@ CHECKS = {
         "velocities, masses, three window forms incl. a shifted origin that leaves cells outside the sphere). Oracle: unit length, "
         "mutual perpendicularity, n parallel to the request, u x v = n, n parallel to (or image plane containing) the independently "
         "summed angular momentum.",
-        "Tolerances 1e-12 / 1e-10. Configurations with zero net angular momentum in the window are outside the statement.",
+        "Tolerances 1e-12 / 1e-10. Configurations with zero net angular momentum in the window are outside the statement. Added: the basis osyris.map actually uses is recovered through the public API from constant vector layers, incl. layers taken from two Datagroups.",
         "DESIGN.md §3 C18",
     ),
     "C17": (
@@ -110,7 +110,7 @@ CHECKS = {
         "step: value and dimension of x op y from the independent unit table, Array identity preserved, right operand bit-identical, "
         "same raw numbers through every alias of the buffer, every non-aliased wrapper bit-identical, and the identity and "
         "shared-memory partitions of all reachable wrappers equal to the reference heap's.",
-        "A slice is a separate wrapper: its unit label is not required to follow a unit-changing update made through another wrapper.",
+        "A slice is a separate wrapper: its unit label is not required to follow a unit-changing update made through another wrapper. Added: strided and reversed views (element-index model), slicing of groups, sortby on groups sharing members, a persistent right operand used, modified in place and used again.",
         "DESIGN.md §3 C17",
     ),
     "C07": (
@@ -135,7 +135,7 @@ CHECKS = {
         "components against per-component conversion, every cross-family pair must raise; each constant of the default "
         "configuration against independently written IAU 2015 / CODATA values; equivalent spellings; and all 8 subsets of "
         "user-supplied configuration objects, each imported in a fresh process with its own HOME.",
-        "Trusted: M2 table (constants pinned to 1e-3/1e-4 relative; finer digits are not checked).",
+        "Trusted: M2 table (constants pinned to 1e-3/1e-4 relative; finer digits are not checked). Added: temperature, frequency and electromagnetic families (Gaussian vs SI), unit strings that collide when white space is dropped, requested in sequences.",
         "DESIGN.md §3 C08",
     ),
     "C09": (
@@ -160,7 +160,7 @@ CHECKS = {
         "(same, other, incompatible unit) on either side} and of {neg, ** k for k in 2,3,-1,0.5,0,1, k*a, 2.5*a, k/a} x 4 dtypes x 4 "
         "shapes x all units. Expected physical value and dimension vector come from exact CGS scales in an independent table; "
         "incompatible +/- must raise and leave both operands bit-identical.",
-        "Trusted: M2 unit table; pint only parses unit labels. Reversed operations that refuse are not flagged.",
+        "Trusted: M2 unit table; pint only parses unit labels. Reversed operations that refuse are not flagged. Added after seeded changes: every length-3 sequence over 10 steps (binary operations interleaved with in-place changes of two persistent operands), electromagnetic and temperature unit families.",
         "DESIGN.md §3 C02",
     ),
     "C10": (
@@ -173,7 +173,7 @@ CHECKS = {
         "Quantity, ndarray, number, ndarray first, Quantity first) x dtypes x shapes. Values must equal numpy on the physical values; "
         "the unit must follow the function's class; operands carrying different units must be converted or refused, incompatible "
         "ones refused.",
-        "Trusted: M2 unit table. Index-valued, var/prod and transcendental functions are outside the statement.",
+        "Trusted: M2 unit table. Index-valued, var/prod and transcendental functions are outside the statement. Added: every length-3 sequence over 10 steps on persistent Arrays (conversions, out= targets, in-place updates).",
         "DESIGN.md §3 C10",
     ),
     "C04": (
@@ -267,7 +267,7 @@ CHECKS = {
         "index to every component array independently, so agreement means one row selection was applied to all members. "
         "The invariant 'all members have the group shape' is evaluated in every reached state.",
         "Bounded alphabets (3 keys, 7 value kinds, 4-6 rows) and depth; canonical-form soundness is cross-checked by an "
-        "undeduplicated pass.",
+        "undeduplicated pass. Added: the same object stored twice in a group (alias, component alias), negative entries in index arrays, sorting by a permutation counted from the end.",
         "DESIGN.md §3 C06",
     ),
     "C20": (
@@ -279,7 +279,7 @@ CHECKS = {
         "and compared, after every transition, with a plain-dict reference model through the full read-only API; "
         "== is evaluated on every ordered pair of a 30-group catalogue against element-wise equality computed from raw "
         "numbers. All explored traces are implementation traces.",
-        "Values are fresh per insertion; 0-d members are handled by C06; bounded key/value alphabets and depth.",
+        "Values are fresh per insertion; 0-d members are handled by C06; bounded key/value alphabets and depth. Added: histories of == between two live groups in different units interleaved with in-place changes of their members.",
         "DESIGN.md §3 C20",
     ),
 }
